@@ -53,7 +53,7 @@ def cases(ctx):
             yield {"op": "acyclic_unroll_acyclic", "c": proj(c), "k": 0, "src": "G3"}
         yield {"op": "insert_registers", "c": proj(c), "k": r.choice([1, 1, 2, 3]), "src": "G3"}
     # FO: one driver (input / gate / inverter / output gate) with fan-out 1..9, k = 2..5
-    for drv in ("input", "and", "not", "outgate"):
+    for drv in ("input", "and", "not", "outgate", "const"):
         for m in range(1, 10):
             p = fanout_circuit(drv, m)
             for k in (2, 3, 4, 5):
@@ -72,6 +72,9 @@ def fanout_circuit(drv, m):
     g.add_node("b", type="input", output=False)
     if drv == "input":
         d = "a"
+    elif drv == "const":
+        d = "one"
+        g.add_node("one", type="1", output=False)
     else:
         d = "d"
         g.add_node("d", type="and" if drv != "not" else "not", output=(drv == "outgate"))
